@@ -171,6 +171,26 @@ Proof.
   apply bridge_gumbel_pdf; lra.
 Qed.
 
+(* ================= theta = 1: the independence member of the Gumbel family ================= *)
+(* (before the repair recorded as F28 the code returned V for the conditional CDF and U*V for the
+   density at theta = 1; the generated model then made this theorem unprovable) *)
+Theorem C07_gumbel_independence_member u v :
+  GH 1 u v = u /\ GD 1 u v = 1 /\
+  is_derive (fun t => GC 1 u t) v (GH 1 u v) /\ is_derive (fun s => GH 1 s v) u (GD 1 u v).
+Proof.
+  assert (EH : forall a b, GH 1 a b = a).
+  { intros a b. unfold gumbel_partial_derivative. rewrite (proj2 (Reqb_true 1 1)) by reflexivity. reflexivity. }
+  assert (ED : forall a b, GD 1 a b = 1).
+  { intros a b. unfold gumbel_probability_density. rewrite (proj2 (Reqb_true 1 1)) by reflexivity. reflexivity. }
+  split; [apply EH|]. split; [apply ED|]. split.
+  - rewrite EH. apply (is_derive_ext (fun t => u * t)).
+    + intros t. symmetry. apply bridge_gumbel_indep.
+    + auto_derive; [exact I | ring].
+  - rewrite ED. apply (is_derive_ext (fun s => s)).
+    + intros t. symmetry. apply EH.
+    + auto_derive; [exact I | ring].
+Qed.
+
 (* ================= log density, row-wise evaluation ================= *)
 Theorem C07_log_density (pdf : R -> R -> R) u v :
   bivariate_log_probability_density pdf u v = ln (pdf u v).
@@ -202,3 +222,4 @@ Print Assumptions C07_frank_rect_integral.
 Print Assumptions C07_gumbel_rect_integral.
 Print Assumptions C07_density_nonneg_sym.
 Print Assumptions C07_rowwise.
+Print Assumptions C07_gumbel_independence_member.
